@@ -61,7 +61,7 @@ ALLK = ['"bool"', '"int8"', '"int16"', '"int32"', '"int64"', '"int"', '"uint8"',
         '"uint"', '"float32"', '"float64"', '"string"', '"duration"']
 ALLO = ["req", "opt", "def", "defbig", "options", "optbig", "rcc", "roo", "rco", "roc", "rhi", "rlo", "optrange",
         "str", "stropts", "defopts", "defrange", "env5", "env300"]
-NLITS = 66
+NLITS = 74
 
 # literal indices (see Lits in UnmarshalContract.tla)
 L = {"0": 1, "1": 2, "2": 3, "5": 4, "7": 5, "10": 6, "-1": 7, "127": 8, "128": 9, "-128": 10, "-129": 11, "255": 12,
@@ -69,7 +69,13 @@ L = {"0": 1, "1": 2, "2": 3, "5": 4, "7": 5, "10": 6, "-1": 7, "127": 8, "128": 
      "0.1": 35, "0.5": 36, "1.5": 37, "1.0": 38, "5.0": 39, "1e2": 40, "3.5e38": 43, "1e39": 44, "1e400": 46,
      "true": 47, "false": 48, "abc": 49, "xyz": 50, "a b&c=d": 51, '"10"': 52, '"300"': 53, '"true"': 55, "10s": 56,
      "1h": 57, "null": 58, "[1]": 59, "{x:1}": 60,
-     "hello world": 61, "100%": 62, "a+b": 63, "x&y=z?w#v": 64, "nihao": 65, 'say "hi"': 66}
+     "hello world": 61, "100%": 62, "a+b": 63, "x&y=z?w#v": 64, "nihao": 65, 'say "hi"': 66,
+     '"010"': 67, '"0100"': 68, '"-010"': 69, '"007"': 70, '"0x1F"': 71, '"0b11"': 72, '"0o17"': 73, '"1_000"': 74}
+# "env_0" (env=V with V=0) is defined in the generator but left out of the plan: on an int64 field it makes
+# processFieldWithEnvValue panic (its switch takes every Int64 for a Duration; "0" is the one unit-less text
+# time.ParseDuration accepts) - reported with /tmp/fixes/C05-5.patch; add it to COMBO once that fix is in /repo.
+COMBO = ["env_0", "er_m1", "er_1", "er_5", "er_7", "er_300", "eoc_1", "eoc_5", "eo_1", "eo_7", "defz", "defrout", "defoout"]
+NUMK = [k for k in ALLK if k not in ('"bool"', '"string"', '"duration"')]
 ESC = ("hello world", "100%", "a+b", "x&y=z?w#v", "nihao", 'say "hi"')
 
 
@@ -102,8 +108,11 @@ def plans(ctx):
     # single: all kinds x all option sets x pointer x both source classes (this run is also the model
     # check of the relation); quick leaves out the mid-range boundary literals, thorough offers all 60
     if ctx.quick:
-        alll = S(sorted(set(range(1, NLITS + 1)) - {3, 5, 6, 15, 16, 17, 18, 19, 21, 22, 24, 25, 26, 27, 31, 32, 36, 41, 42, 45, 48, 50, 54, 57, 63, 64, 66}))
-    out.append(("single", [job("single-%d" % i, "single", Q(g), allo, alll) for i, g in enumerate(split_kinds(allk, 5))]))
+        alll = S(sorted(set(range(1, NLITS + 1)) - {3, 5, 6, 15, 16, 17, 18, 19, 21, 22, 24, 25, 26, 27, 31, 32, 36, 41, 42, 45, 48, 50, 54, 57, 63, 64, 66, 68, 70, 72, 73}))
+    # + env= / default= combined with range= / options= on numeric and pointer-to-numeric fields
+    combo_docs = lits("5", "7", "300", "abc") if ctx.quick else lits("0", "1", "5", "7", "300", "1.5", "abc", "null", '"010"')
+    out.append(("single", [job("single-%d" % i, "single", Q(g), allo, alll) for i, g in enumerate(split_kinds(allk, 5))]
+                + [job("single-combo-%d" % i, "single", Q(g), Q(COMBO), combo_docs) for i, g in enumerate(split_kinds(NUMK, 2))]))
     if ctx.quick:
         k1 = ["int8", "uint8", "int64", "float32", "string", "duration"]
         out.append(("pair", [job("pair-%d" % i, "pair", Q(g), Q(["req", "opt", "def", "rcc"]),
@@ -112,7 +121,7 @@ def plans(ctx):
                              for i, g in enumerate(split_kinds(k1, 2))]))
         out.append(("embedded", [job("embedded", "embedded", Q(["int8", "string", "float32"]), Q(["req", "opt", "def"]),
                                      lits("5", "300", "abc"), Q(["uint8", "string"]), Q(["req", "def"]), lits("5", "300", "abc"))]))
-        celems = lits("5", "300", "-1", "256", "1.5", "abc", "true", "10s", "1e39", "null", "[1]", "{x:1}")
+        celems = lits("5", "300", "-1", "256", "1.5", "abc", "true", "10s", "1e39", "null", "[1]", "{x:1}", '"010"', '"0x1F"')
         for fam in ("slice", "map"):
             out.append((fam, [job(fam, fam, Q(allk), Q(["req"]), celems, litidx2=lits("5", "300", "abc", "null"))]))
         out.append(("nested", [job("nested", "nested", Q(["int8", "string"]), Q(["req", "opt", "def"]), lits("5", "300", "abc"),
@@ -125,7 +134,7 @@ def plans(ctx):
                                       lits("5", "300", "1.5", "abc", "true", "2^64-1", *ESC),
                                       Q(["int8", "string"]), Q(["req"]), lits("5", "abc", "a b&c=d", "hello world", "100%", "nihao"))]))
         out.append(("twice", [job("twice-%d" % i, "twice", Q(g), Q(["req"]), lits("5", "300", "abc", "1.5", "true"),
-                                  litidx2=lits("5", "300", "abc", "xyz", "1.5", "true"))
+                                  litidx2=lits("5", "300", "abc", "xyz", "1.5", "true", '"010"'))
                               for i, g in enumerate(split_kinds(["string", "int8", "int64", "float64", "bool", "uint8"], 3))]))
     else:
         o1 = ["req", "opt", "def", "defbig", "options", "rcc", "roo", "str", "env300"]
@@ -139,7 +148,8 @@ def plans(ctx):
                                      Q(["req", "opt", "def"]), lits("5", "300", "abc"))
                                  for i, g in enumerate(split_kinds(allk, 3))]))
         celems = lits("0", "5", "300", "-1", "127", "128", "255", "256", "65536", "2^31", "2^63", "2^64-1", "2^64", "1.5", "1.0",
-                      "0.1", "abc", "true", "10s", "1e39", "3.5e38", "1e400", "null", '"10"', "[1]", "{x:1}")
+                      "0.1", "abc", "true", "10s", "1e39", "3.5e38", "1e400", "null", '"10"', "[1]", "{x:1}",
+                      '"010"', '"-010"', '"0x1F"', '"1_000"')
         for fam in ("slice", "map"):
             out.append((fam, [job("%s-%d" % (fam, i), fam, Q(g), Q(["req"]), celems,
                                   litidx2=lits("5", "300", "abc", "null", "1.5", "256", "-1"))
